@@ -85,6 +85,7 @@ fn corpus(family: &str, thorough: bool) -> Corpus {
                     }
                 }
                 v.extend(cat::text_extensions());
+                v.extend(cat::oid_filter_extensions());
                 v.extend(cat::extensions_many().into_iter().step_by(3));
                 if family == "extlist" {
                     v.extend(cat::extension_lists_many().into_iter().take(4));
